@@ -1,5 +1,6 @@
 (* Position/Proofs.v — the lemmas that Props/C15.v states, with their non-vacuity examples. *)
-From Verif Require Import Common.Base Common.Tactics Cursor.Model Cursor.Proofs Position.Model Position.Total.
+From Verif Require Import Common.Base Common.Tactics Cursor.Model Cursor.Proofs Position.Model Position.Spec
+  Position.Lemmas Position.Total Position.LineCol.
 From Coq Require Import ZifyBool.
 
 Section Proofs.
@@ -37,6 +38,24 @@ Section Proofs.
     unfold position_context, context_line, ctx_scan, peek_err, lexeme_bytes, with_pos.
     cbn [pos buf start ierr skipz Z.to_nat skipn]. cbn. rewrite !Hne. cbn. rewrite ?Hne. reflexivity.
   Qed.
+
+  (* line and column of every offset of a valid UTF-8 text *)
+  Theorem position_line_col_full cps off :
+    Forall cp_ok cps -> 0 <= off <= len (bytes cps) ->
+    (exists pre cur post, located cps off pre cur post) /\
+    (forall pre cur post, located cps off pre cur post ->
+       exists ctx, position graphic (bytes cps) off =
+                     Done (1 + breaks (runes pre), 1 + len (last_line (runes pre)), ctx)).
+  Proof.
+    intros Hok Hoff. split; [apply located_exists; assumption|].
+    intros pre cur post Hloc. apply (position_line_col_proof graphic cps off pre cur post); assumption.
+  Qed.
+
+  (* outside [0, len]: as at the nearest end, for all byte strings *)
+  Theorem position_clamp_proof data offset :
+    (offset <= 0 -> position graphic data offset = position graphic data 0) /\
+    (len data <= offset -> position graphic data offset = position graphic data (len data)).
+  Proof. split; [apply position_clamp_low_proof|apply position_clamp_high_proof]. Qed.
 End Proofs.
 
 (* --- non-vacuity ----------------------------------------------------------------------- *)
@@ -55,3 +74,23 @@ Proof. exact (position_clamp_low_proof ascii_graphic [97; 10; 98] (-1) ltac:(lia
 Example position_reader_error_nonvacuous :
   exists x, position_reader ascii_graphic [[97; 98]; [99]] 2 1 = Done x.
 Proof. eexists. apply position_reader_error_proof. lia. Qed.
+
+(* "a\r\nbé": the offset of the \n inside \r\n is the position of the pair: line 1, column 2 *)
+Definition ex_cps : list cp := [([97], 97); ([13], 13); ([10], 10); ([98], 98); ([195; 169], 233)].
+Example ex_cps_ok : Forall cp_ok ex_cps.
+Proof. repeat constructor. Qed.
+Example ex_located_crlf : located ex_cps 2 [([97], 97)] [([13], 13); ([10], 10)] [([98], 98); ([195; 169], 233)].
+Proof. split; [reflexivity|]. cbn. repeat split; lia. Qed.
+Example ex_located_multibyte : located ex_cps 5 [([97], 97); ([13], 13); ([10], 10); ([98], 98)] [([195; 169], 233)] [].
+Proof.
+  split; [reflexivity|]. cbn. split; [lia|]. split; intros [H _]; discriminate.
+Qed.
+Example position_line_col_nonvacuous :
+  exists ctx, position ascii_graphic (bytes ex_cps) 5 = Done (2, 2, ctx).
+Proof.
+  destruct (position_line_col_proof ascii_graphic ex_cps 5 _ _ _ ex_cps_ok ex_located_multibyte) as (ctx & E).
+  exists ctx. exact E.
+Qed.
+Example position_clamp_high_nonvacuous :
+  position ascii_graphic [97; 10; 98] 4 = position ascii_graphic [97; 10; 98] 3.
+Proof. apply position_clamp_high_proof. cbn. lia. Qed.
